@@ -37,6 +37,25 @@ PROPS["C02"] = {
     },
 }
 
+PROPS["C14"] = {
+    "level": "exploration",
+    "rule": ("each run builds a world on a drawn carrier, records the idle footprint, runs N then N more logical connections (N in 3..8 quick, 5..40 thorough; "
+             "up to 3 overlapping; either side closing first), compares the footprint after 2N with the one after N, then ends the physical session in a drawn "
+             "manner (client shutdown, carrier reset, garbage frame, partition until the multiplexer keep-alive gives up, or not at all) and compares with idle; "
+             "footprint = goroutines of the bubble grouped by creation site (harness excluded) + open simulated sockets/listeners; non-trivial = both batches "
+             "completed; distinct = schedule shapes"),
+    "probes": ["logical_connections", "session_end_checked", "fault_carrier_reset", "fault_partition", "fault_garbage_frame", "end_client_shutdown"],
+    "technique": "deterministic simulation: histories of N and 2N connections and fault-ended sessions, resource-ledger oracle + busy-loop detector",
+    "level_text": ("Seeded exploration of connection histories and session endings. The oracle is a resource ledger taken at quiescent points after a drain of 150 "
+                   "simulated seconds: constant (not linear) in the number of past connections, back to idle after the session ended, and no goroutine that emits "
+                   "the same log entry 2000 times without blocking (busy loop on a dead session)."),
+    "level_note": "Goroutines are attributed by creation site from a runtime stack dump restricted to the run's synctest bubble; sockets are simnet endpoints. CPU use is judged by the spin detector (logging loops) and the orchestrator's watchdog (silent loops), not by timing.",
+    "tiers": {
+        "quick": {"runs": 600, "chunk": 50, "shrink_s": 40},
+        "thorough": {"runs": 12000, "chunk": 100, "shrink_s": 120},
+    },
+}
+
 PENDING = "check under construction in this round; see DESIGN.md section 5 for the planned simulation"
 NOT_APPLICABLE = [
     {"property_id": "C08", "reason": "pure function of one byte string (codec Encode/Decode): no schedule, clock, fault or second party for a simulator to control; see DESIGN.md section 6"},
